@@ -5,7 +5,7 @@ GetStateRoot / Init / ResetState over the DataMPTAux records with their real key
 lemmas `Proofs/StateCommitRoots{KV,Inv}.lean`.
 
 Histories are lists of `Op`: a stored block, a block whose batch was applied by AddMPTBatch but that
-was rejected afterwards (nothing committed), a state reset to any height, a process restart, a signed
+was rejected afterwards (nothing committed, the trie reloaded: DropMPTBatch), a state reset to any height, a process restart, a signed
 ("validated") state root arriving from the network (AddStateRoot: whatever it carries, verified or not). State
 roots are never garbage-collected by the module (GC removes trie nodes only, module.go:300-333), so
 "retained" = not removed by a reset.
@@ -26,15 +26,15 @@ theorem inv_step (O : TrieOps T) (hre : ∀ t, O.reopen (O.rootOf t) = t) (h32 :
       simp only [Option.some.injEq] at hs; subst hs
       exact inv_block O s hi b hlt
     · cases hs
-  | failed b => simp only [step, Option.some.injEq] at hs; subst hs; exact hi
-  | reset h v =>
+  | failed b => simp only [step, Option.some.injEq] at hs; subst hs; exact inv_failed O hre s hi
+  | reset h =>
     simp only [step] at hs
     split at hs
     · rename_i hlt
       split at hs
       · rename_i m' hm
         simp only [Option.some.injEq] at hs; subst hs
-        exact inv_reset O hre h32 s hi h v hlt m' hm
+        exact inv_reset O hre h32 s hi h hlt m' hm
       · simp only [Option.some.injEq] at hs; subst hs; exact hi
     · simp only [Option.some.injEq] at hs; subst hs; exact hi
   | restart =>
@@ -117,7 +117,7 @@ theorem chain_sub (O : TrieOps T) (ops : List Op) : ∀ (s s' : St T), run O s o
             · simp only [List.mem_singleton] at h2; subst h2; exact Or.inr (by simp)
           · cases hs
         | failed c => simp only [step, Option.some.injEq] at hs; subst hs; exact Or.inl h1
-        | reset hh v =>
+        | reset hh =>
           simp only [step] at hs
           split at hs
           · split at hs
@@ -206,6 +206,7 @@ def toyOps : TrieOps (Option UInt8) where
   reopen := fun r => match r with
     | 1 :: x :: _ => some x
     | _ => none
+  rootOf_empty := rfl
 
 theorem toy_reopen : ∀ t, toyOps.reopen (toyOps.rootOf t) = t := by
   intro t; cases t <;> rfl
@@ -214,7 +215,7 @@ theorem toy_len : ∀ t, (toyOps.rootOf t).length = 32 := by
 
 def toyHistory : List Op :=
   [.block [(toyKey, some [1])], .block [(toyKey, some [2])], .failed [(toyKey, some [9])],
-   .block [(toyKey, none)], .reset 1 none, .restart, .block [(toyKey, some [5])]]
+   .block [(toyKey, none)], .reset 1, .restart, .block [(toyKey, some [5])]]
 
 example : ∃ s, run toyOps (genesis toyOps) toyHistory = some s ∧ s.chain.length = 3 ∧
     (getStateRoot s.m 1).map (·.root) = some (toyOps.rootOf (some 2)) ∧
@@ -248,6 +249,17 @@ def toyValidated : List Op :=
 example : ∃ s, run toyOps (genesis toyOps) toyValidated = some s ∧
     getStateRoot s.m 1 = some { index := 1, root := toyOps.rootOf (some 2), wit := [1, 7] } ∧
     kvGet s.m.store validatedKey = some (le32 1) ∧ s.m.localHeight = 2 := by
+  refine ⟨_, rfl, ?_⟩
+  decide
+
+-- a reset below a witnessed root computes the validated height itself (the backward search): the record of
+-- height 1 carries a witness, heights 2-3 do not; Reset(2) finds 1, and a rejected block in between reloads the trie
+example : ∃ s, run toyOps (genesis toyOps)
+      [.block [(toyKey, some [1])], .block [(toyKey, some [2])], .block [(toyKey, some [3])], .block [(toyKey, none)],
+       .validated { index := 1, root := toyOps.rootOf (some 2), wit := [1, 7] } true,
+       .failed [(toyKey, some [9])], .reset 2] = some s ∧
+    kvGet s.m.store validatedKey = some (le32 1) ∧ s.chain.length = 3 ∧ s.m.mpt = some 3 ∧
+    getStateRoot s.m 3 = none := by
   refine ⟨_, rfl, ?_⟩
   decide
 
